@@ -170,9 +170,9 @@ def _amend(pid, more=None, note=None, technique=None):
         c['technique'] = technique
 
 
-_amend('C09', more=('Since session 3 the line-oriented states REQ_LINE (+ REQ_LINE_complete), REQ_PROTOCOL, REQ_HEADERS, RES_LINE (three exhaustive cases) and RES_FINALIZE are ENFORCED against '
+_amend('C09', more=('Since session 3 the line-oriented states REQ_LINE (+ REQ_LINE_complete), REQ_PROTOCOL, REQ_HEADERS, RES_LINE (three exhaustive cases), RES_HEADERS and RES_FINALIZE are ENFORCED against '
                     'contracts that contain the shared state contract; htp_connp_req_close is enforced with the driver replaced by its proved contract (a direction in ERROR or STOP stays there when the stream is closed - a defect found by this unit is repaired).'),
-       note='C09: htp_connp_RES_HEADERS is the one state function still ASSUMED to meet the shared state contract (bounded units cover its look-ahead, folding cap, fold decision and closed-stream branch); callbacks return OK/DECLINED/STOP/ERROR; RES_LINE assumes a closed stream offers no data (needed for termination) and the generic line parser.')
+       note='C09: EVERY state function of both directions is now enforced against a contract that contains the shared state contract (no state function is assumed any more); callbacks return OK/DECLINED/STOP/ERROR; RES_LINE assumes a closed stream offers no data (needed for termination) and the generic line parser.')
 _amend('C03', more=('Session 3: REQ_LINE, REQ_HEADERS, RES_LINE, RES_FINALIZE are under dfcc contract with the L2 clause "incomplete line => DATA_BUFFER, chunk exhausted, no LF among the bytes read, nothing decided (no helper ran; state, buffer, flags unchanged)"; '
                     'the consolidation relation the line states assume is enforced on the real htp_connp_req/res_consolidate_data.'),
        note='C03: the two-run relational claim is not decided; L3 is a manual audit. Probes that depend on chunk geometry for input OUTSIDE the quantifier (not well-formed exchanges): REQ_PROTOCOL protocol-less request line followed by headers, RES_LINE junk-line probe, bare CR ending a status line - native reproducers under findings/c03_*.c, recorded as observations in DESIGN 13, not claimed and not findings.')
@@ -196,10 +196,10 @@ _amend('C19', more=('Session 3: (a) the C type checker decides "no store through
        technique='dfcc frame (assigns) obligations of all enforced contracts + syntactic scan of the assigns clauses + static-storage scan (gcc -c, nm) + const-typedef type check of the configuration',
        note='C19: thread schedules are not explored (no thread model in CBMC contracts); umask() around mkstemp is process-wide (observation); stores through casts / memcpy and objects the configuration only points to are outside the const scan.')
 _amend('C01', more=('Session 3: the quick tier runs EVERY unit of every property (no time cut). New teardown units: per-transaction body hooks, connp / conn / tx / config life cycle; three genuine defects found by units on the unchanged tree are repaired (response-body hook leak, parser destroy left transactions dangling, close un-sticking STOP).'),
-       note='C01 scope = the functions under contract listed in evidence; NOT verified: htp_connp_RES_HEADERS as a whole, transcoder / iconv, file extraction I/O, LZMA/zlib internals, the real htp_log (vsnprintf), debug printers; callbacks that destroy the transaction they are called for.')
+       note='C01 scope = the functions under contract listed in evidence; NOT verified: transcoder / iconv, file extraction I/O, LZMA/zlib internals, the real htp_log (vsnprintf), debug printers; callbacks that destroy the transaction they are called for.')
 _amend('C16', more='Session 3: the WAIT_RESPONSE post-condition is now taken from the property (the request side stays suspended until the status line of a FINAL response has been seen; an interim 100 Continue is not the answer) - the defect this exposed is repaired.')
 _amend('C04', more='Session 3: htp_conn_remove_tx is additionally checked by a loop-structure-independent unit (capacity 4, every ring position, stale tx->index); htp_connp_tx_remove serves C04.')
-_amend('C10', more='Session 3: REQ_HEADERS under dfcc contract asserts the folded-header cap at every append in every iteration (pending length unbounded); RES_HEADERS fold decision is a bounded unit.')
+_amend('C10', more='Session 3: REQ_HEADERS under dfcc contract asserts the folded-header cap at every append in every iteration (pending length unbounded); RES_HEADERS under dfcc contract asserts the same cap at every append; its fold decision is a bounded unit.')
 _amend('C06', more='Session 3: RES_FINALIZE (unexpected body delivered once and counted; next response un-read exactly), REQ_LINE / REQ_HEADERS ("consumed exactly once") and the coded body sinks are under contract.')
 
 NOT_YET = 'not yet built in this session (planned in DESIGN.md section 4); no check is registered, so nothing is claimed'
